@@ -146,6 +146,14 @@ def run(ctx: Ctx) -> None:
                           {"alg": alg, "enc": enc, "ser": ser, "spelling": spi, "what": what, "detail": detail})
     for p in pairs:
         ctx.nontrivial.add("b:%s:%s" % p[:2])
+    from . import c17
+    from .common import pmap
+    nd = 2048 if thorough else 512
+    for bad, n in pmap(c17.diversity, [(i, nd // 16, ctx.seed) for i in range(0, nd, nd // 16)], chunksize=1):
+        ctx.evaluations += n
+        for i, ln, what in bad[:3]:
+            if what.startswith("independent"):
+                ctx.violation("jwewire:zip=DEF diverse large plaintext -> " + what.split(":")[0], {"index": i, "length": ln, "what": what})
     c04._init()
     ctx.evaluations += rfc_vectors(ctx)
     ctx.traces += pts
